@@ -115,8 +115,9 @@ package semantic
 
 //@ func (r *resolver) ResolveType(t *parser.Type) (err error)
 //@   requires wfResolver(r) && wfTypes() && t != nil
-//@   requires wfThs() && tdRefsOK() && tdRootsNotChildren() && ownTd(r, t)
+//@   requires wfThs() && tdRefsOK() && tdRootsNotChildren() && ownTd(r, t) && distinctIncs(r)
 //@   ensures tdRefsOK()
+//@   ensures !isContainer(t.Name) ==> forall k int :: 0 <= k && k < len(r.ast.Includes) && r.ast.Includes[k].Used != old(r.ast.Includes[k].Used) ==> err == nil && t.Reference != nil && k == t.Reference.Index
 //@   ensures err == nil && isBase(t.Name) ==> t.Category == baseCat(t.Name)
 //@   ensures err == nil && !isBase(t.Name) && !isContainer(t.Name) && lastIndex(t.Name, ".") == -1 ==> inDom(r.ast.Name2Category, t.Name) && isTypeCat(r.ast.Name2Category[t.Name]) && t.Category == r.ast.Name2Category[t.Name] && (t.Category == parser.Category_Typedef ==> t.IsTypedef != nil) && (t.Category != parser.Category_Typedef ==> t.IsTypedef == old(t.IsTypedef)) && t.Reference == old(t.Reference)
 //@   ensures err == nil && !isBase(t.Name) && !isContainer(t.Name) && lastIndex(t.Name, ".") >= 0 ==> t.Reference != nil
@@ -125,6 +126,7 @@ package semantic
 //@   ensures wfTypes()
 //@   modifies parser.Type.Category, parser.Type.IsTypedef, parser.Type.Reference, parser.Include.Used, r.typedefs
 //@   loop 1 invariant err == nil && t.Reference == old(t.Reference) && wfTypes() && wfResolver(r) && tdRefsOK()
+//@   loop 1 invariant forall k int :: 0 <= k && k < len(r.ast.Includes) ==> r.ast.Includes[k].Used == old(r.ast.Includes[k].Used)
 //@   loop 1 invariant forall k int :: 0 <= k && k < $i ==> !(IDLPrefix(r.ast.Includes[k].Path) == tmp[0] && inDom(r.ast.Includes[k].Reference.Name2Category, tmp[1]) && isTypeCat(r.ast.Includes[k].Reference.Name2Category[tmp[1]]))
 
 //@ func (r *resolver) ResolveBaseService(v *parser.Service) error
@@ -195,13 +197,23 @@ package semantic
 
 //@ pure func bound1(a *parser.Thrift, x *parser.ConstValue) bool { return x.Type == parser.ConstType_ConstIdentifier && ident(x) != "true" && ident(x) != "false" ==> x.Extra != nil && denotes(a, x.Extra) }
 
+// Ambiguity: an identifier "prefix.NAME" that two includes with that prefix both define as a constant is an error.
+//@ pure func candC(r *resolver, p string, n string, k int) bool { return IDLPrefix(r.ast.Includes[k].Path) == p && isConstName(r.ast.Includes[k].Reference, n) }
+//@ pure func haveC(ref []*parser.ConstValueExtra, k int) bool { return exists j int :: 0 <= j && j < len(ref) && !ref[j].IsEnum && ref[j].Index == k }
+//@ pure func completeC(r *resolver, ref []*parser.ConstValueExtra, p string, n string, m int) bool { return forall k int :: 0 <= k && k < m && candC(r, p, n, k) ==> haveC(ref, k) }
+
 //@ func (r *resolver) ResolveConstValue(t *parser.ConstValue) (err error)
 //@   requires wfResolver(r) && wfThs() && tdRefsOK() && wfCVs() && wfEnumsG() && t != nil && distinctIncs(r)
 //@   ensures err == nil && t.Type == parser.ConstType_ConstIdentifier && ident(t) != "true" && ident(t) != "false" ==> t.Extra != nil && denotes(r.ast, t.Extra)
 //@   ensures forall x *parser.ConstValue :: x != nil && old(allocated(x) && x.Extra != nil && denotes(r.ast, x.Extra)) ==> x.Extra != nil && denotes(r.ast, x.Extra)
 //@   ensures err == nil && t.Type == parser.ConstType_ConstList ==> forall i int :: 0 <= i && i < len(t.TypedValue.List) ==> bound1(r.ast, t.TypedValue.List[i])
 //@   ensures err == nil && t.Type == parser.ConstType_ConstIdentifier ==> forall k int :: 0 <= k && k < len(r.ast.Includes) && r.ast.Includes[k].Used != old(r.ast.Includes[k].Used) ==> t.Extra != nil && t.Extra.Index == k
+//@   ensures err == nil && t.Type == parser.ConstType_ConstIdentifier && ident(t) != "true" && ident(t) != "false" && lastIndex(ident(t), ".") >= 0 ==> forall a, b int :: 0 <= a && a < b && b < len(r.ast.Includes) ==> !(candC(r, ident(t)[:lastIndex(ident(t), ".")], ident(t)[lastIndex(ident(t), ".")+1:], a) && candC(r, ident(t)[:lastIndex(ident(t), ".")], ident(t)[lastIndex(ident(t), ".")+1:], b))
 //@   modifies parser.ConstValue.Extra, parser.Include.Used
+//@   loop 1 invariant $i >= 1 && len(sss[0]) == 2 ==> completeC(r, ref, sss[0][0], sss[0][1], len(r.ast.Includes))
+//@   loop 1.2 invariant completeC(r, ref, ss[0], ss[1], $i) && (len(ref) > 0 ==> ref[len(ref)-1] != nil)
+//@   loop 1.3 invariant len(sss[0]) == 2 ==> completeC(r, ref, sss[0][0], sss[0][1], len(r.ast.Includes))
+//@   loop 1.3.1 invariant len(sss[0]) == 2 ==> completeC(r, ref, sss[0][0], sss[0][1], len(r.ast.Includes))
 //@   loop 1 invariant err == nil && refsOK(r.ast, ref) && forall k int :: 0 <= k && k < len(r.ast.Includes) && r.ast.Includes[k].Used != old(r.ast.Includes[k].Used) ==> exists j int :: 0 <= j && j < len(ref) && ref[j].Index == k
 //@   loop 2 invariant forall x *parser.ConstValue :: x != nil && old(allocated(x) && x.Extra != nil && denotes(r.ast, x.Extra)) ==> x.Extra != nil && denotes(r.ast, x.Extra)
 //@   loop 2 invariant forall i int :: 0 <= i && i < $i ==> bound1(r.ast, t.TypedValue.List[i])
